@@ -210,3 +210,34 @@ def ad_selfcheck(ctx, s, p, var, d_exact):
                 return
         ctx.count("oracle_selfcheck_failed")
         ctx.hist("oracle_selfcheck_failures", S.show(s)[:120] + " @ " + S.show_point(p) + " d/d" + var)
+
+
+def varfree_in_scope(s):
+    """Scope filter to run BEFORE the library sees a tree: every variable-free sub-tree (which the
+    simplifier will fold by evaluating it) must stay within [1e-60, 1e60], ignoring definedness."""
+    def walk(t):
+        """returns True if t has variables"""
+        if t[0] == "Variable":
+            return True
+        if t[0] == "Constant":
+            v = t[1]
+            if isinstance(v, (int, float)) and not isinstance(v, bool):
+                if v != 0 and not (1e-60 <= abs(v) <= 1e60):
+                    raise OverflowError
+            return False
+        flags = [walk(c) for c in S.children(t)]
+        if any(flags):
+            for c, f in zip(S.children(t), flags):
+                if not f and c[0] != "Constant":
+                    if R.NORMAL.evaluate(c, {}).oos:
+                        raise OverflowError
+            return True
+        return False
+    try:
+        hasvars = walk(s)
+        if not hasvars and s[0] != "Constant":
+            if R.NORMAL.evaluate(s, {}).oos:
+                return False
+        return True
+    except OverflowError:
+        return False
